@@ -181,6 +181,24 @@ func runSolver(ctx context.Context, sd solverDef, script string, timeoutMs int) 
 // is a proof; sat / models are taken from the full variant only.
 var scriptNanos int64
 
+// retrySeeds: set during the sequential retry pass of check
+var retrySeeds bool
+
+func seeded(sd solverDef, seed int) solverDef {
+	base := sd.args
+	name := sd.name
+	return solverDef{name: name, args: func(t int) []string {
+		a := base(t)
+		switch name {
+		case "z3-new", "z3":
+			a = append(a, fmt.Sprintf("smt.random_seed=%d", seed), fmt.Sprintf("sat.random_seed=%d", seed))
+		case "cvc5":
+			a = append(a, fmt.Sprintf("--seed=%d", seed))
+		}
+		return a
+	}}
+}
+
 func solve(P *Prog, o *Obligation, timeoutMs int, all bool) *Result {
 	tScript := time.Now()
 	defer func() {}()
@@ -194,6 +212,15 @@ func solve(P *Prog, o *Obligation, timeoutMs int, all bool) *Result {
 	var jobs []job
 	for _, sd := range solvers {
 		jobs = append(jobs, job{sd, full, 0})
+	}
+	if retrySeeds && !o.Cover {
+		// retry pass: the same query under other random seeds (a proof under any seed is a proof)
+		for _, seed := range []int{7, 23} {
+			for _, sd := range solvers {
+				sd2 := seeded(sd, seed)
+				jobs = append(jobs, job{sd2, full, 0})
+			}
+		}
 	}
 	if !o.Cover && len(P.usedRec) > 0 && !all {
 		seen := map[string]bool{full: true}
